@@ -73,6 +73,8 @@ struct Conf {
   meta: K,
   meta_oa: bool,
   data: K,
+  /// entity id order of the receiver's two user readers
+  prot_reader_first: bool,
   governance_xml: String,
 }
 impl Conf {
@@ -151,7 +153,7 @@ fn gen_conf(rng: &mut Rng, index: u64) -> Conf {
   let domains = if rng.chance(1, 2) { "        <id>0</id>\n" } else { "        <id_range>\n          <min>0</min>\n          <max>3</max>\n        </id_range>\n" };
   s.push_str(&domain_rule(rng, domains, rtps.xml(rtps_oa), &rules));
   s.push_str("  </domain_access_rules>\n</dds>\n");
-  Conf { rtps, rtps_oa, meta, meta_oa, data, governance_xml: s }
+  Conf { rtps, rtps_oa, meta, meta_oa, data, prot_reader_first: (index / 27) % 2 == 0, governance_xml: s }
 }
 
 /// what the configuration requires of traffic for an endpoint of a slot
@@ -226,6 +228,8 @@ enum Layer {
   Peer,
   /// the genuine peer, but with the keys of another endpoint pair (slot)
   PeerOtherKeys(usize),
+  /// the other genuine peer (its keys for the same slot), under the claimed peer's name
+  OtherPeer,
   ImpSame,
   ImpOther,
 }
@@ -235,15 +239,19 @@ impl Layer {
       Layer::None => "none".into(),
       Layer::Peer => "peer".into(),
       Layer::PeerOtherKeys(k) => format!("peer-keys-of-{}", SLOT_NAME[k]),
+      Layer::OtherPeer => "keys-of-the-other-peer".into(),
       Layer::ImpSame => "imposter-same-prefix".into(),
       Layer::ImpOther => "imposter-unregistered".into(),
     }
   }
-  fn who(self) -> Who {
+  /// `src`: the genuine peer (0, 1) the traffic claims to come from
+  fn who(self, src: usize) -> Who {
+    let genuine = |i: usize| if i == 0 { Who::Peer } else { Who::Peer2 };
     match self {
       Layer::ImpSame => Who::ImposterSamePrefix,
       Layer::ImpOther => Who::ImposterOtherPrefix,
-      _ => Who::Peer,
+      Layer::OtherPeer => genuine(1 - src),
+      _ => genuine(src),
     }
   }
 }
@@ -264,6 +272,9 @@ struct Unit {
   /// sample id (DATA / DATAFRAG), ACKNACK / NACKFRAG count, 0 for unobserved kinds
   id: u32,
   kind: UKind,
+  /// which genuine peer (0, 1) the unit claims as its source (RTPS header / INFO_SRC prefix and
+  /// that peer's writer / reader entity id for the slot)
+  src: usize,
   slot: usize,
   unknown_receiver: bool,
   sn: i64,
@@ -305,7 +316,7 @@ impl Unit {
     format!("wrap={},sub={},pay={}", self.wrap.name(), self.sub.name(), self.pay.name())
   }
   fn json(&self) -> Value {
-    json!({"id": self.id, "kind": self.kind.name(), "endpoint": SLOT_NAME[self.slot], "to_local_writer": self.kind.to_writer(), "receiver_id": if self.unknown_receiver {"ENTITYID_UNKNOWN"} else {"explicit"},
+    json!({"id": self.id, "kind": self.kind.name(), "claimed_source": if self.src == 0 {"peer1"} else {"peer2"}, "endpoint": SLOT_NAME[self.slot], "to_local_writer": self.kind.to_writer(), "receiver_id": if self.unknown_receiver {"ENTITYID_UNKNOWN"} else {"explicit"},
       "sn": self.sn, "layout": self.layout, "message_level": self.wrap.name(), "submessage_level": self.sub.name(), "payload_level": self.pay.name(),
       "arrived_with": {"rtps": self.have_rtps, "submessage": self.have_sub, "payload": self.have_pay}, "must_flow": self.must, "datagram": self.dgram})
   }
@@ -351,7 +362,9 @@ struct Gen<'a> {
   conf: &'a Conf,
   rng: Rng,
   next_id: u32,
-  sn: [i64; EP_COUNT],
+  /// the genuine peer the datagram under construction claims as its source
+  cur_src: usize,
+  sn: [[i64; EP_COUNT]; 2],
   units: Vec<Unit>,
   dgrams: Vec<Vec<u8>>,
   errors: Vec<String>,
@@ -370,6 +383,7 @@ impl<'a> Gen<'a> {
 
   fn make(&mut self, r: &Recipe) -> Pending {
     let to_writer = r.kind.to_writer();
+    let src = self.cur_src;
     let id = if r.kind.observable() && r.kind != UKind::Gap {
       self.next_id += 1;
       self.next_id
@@ -379,15 +393,15 @@ impl<'a> Gen<'a> {
     let sn = match r.fixed_sn {
       Some(s) => s,
       None => {
-        self.sn[r.slot] += 1;
-        self.sn[r.slot]
+        self.sn[src][r.slot] += 1;
+        self.sn[src][r.slot]
       }
     };
     let le = self.le();
     let (reader_id, writer_id) = if to_writer {
-      (self.ids.remote_readers[r.slot], if r.unknown_receiver { wire::ENTITYID_UNKNOWN } else { self.ids.local_writers[r.slot] })
+      (self.ids.remote_readers[src][r.slot], if r.unknown_receiver { wire::ENTITYID_UNKNOWN } else { self.ids.local_writers[r.slot] })
     } else {
-      (if r.unknown_receiver { wire::ENTITYID_UNKNOWN } else { self.ids.local_readers[r.slot] }, self.ids.remote_writers[r.slot])
+      (if r.unknown_receiver { wire::ENTITYID_UNKNOWN } else { self.ids.local_readers[r.slot] }, self.ids.remote_writers[src][r.slot])
     };
     // ---- payload level
     let mut pay = Layer::None;
@@ -401,7 +415,7 @@ impl<'a> Gen<'a> {
       plain_len = plain.len();
       payload = plain.clone();
       if r.pay != Layer::None {
-        match self.bench.protect_payload(r.pay.who(), r.slot, &plain) {
+        match self.bench.protect_payload(r.pay.who(src), r.slot, &plain) {
           Ok(Some(enc)) => {
             payload = enc;
             pay = r.pay;
@@ -449,7 +463,7 @@ impl<'a> Gen<'a> {
         Layer::PeerOtherKeys(k) => k,
         _ => r.slot,
       };
-      match self.bench.protect_submessage(r.sub.who(), key_slot, &sm) {
+      match self.bench.protect_submessage(r.sub.who(src), key_slot, &sm) {
         Ok(Some([a, b, c])) => {
           pieces = vec![a, b, c];
           sub = r.sub;
@@ -466,6 +480,7 @@ impl<'a> Gen<'a> {
       unit: Unit {
         id,
         kind: r.kind,
+        src,
         slot: r.slot,
         unknown_receiver: r.unknown_receiver,
         sn,
@@ -494,7 +509,7 @@ impl<'a> Gen<'a> {
   }
 
   fn header(&self, prefix_of: Layer) -> Vec<u8> {
-    wire::header(if prefix_of == Layer::ImpOther { &self.ids.other_prefix } else { &self.ids.peer_prefix })
+    wire::header(if prefix_of == Layer::ImpOther { &self.ids.other_prefix } else { &self.ids.peer_prefix[self.cur_src] })
   }
 
   /// Clean layout: [context] unit ... unit, optionally protected as a whole. `spoof`: the RTPS
@@ -509,7 +524,7 @@ impl<'a> Gen<'a> {
       wire::info_ts(&mut d, le, t);
     }
     if spoof {
-      let p = self.ids.peer_prefix;
+      let p = self.ids.peer_prefix[self.cur_src];
       info_src(&mut d, le, &p);
       source_is_peer = true;
     }
@@ -534,7 +549,7 @@ impl<'a> Gen<'a> {
     // ---- message level
     let mut applied = Layer::None;
     if wrap != Layer::None {
-      match self.bench.protect_message(wrap.who(), &d) {
+      match self.bench.protect_message(wrap.who(self.cur_src), &d) {
         Ok(Some(w)) => {
           d = w;
           applied = wrap;
@@ -628,7 +643,13 @@ impl<'a> Gen<'a> {
         match rng.below(10) {
           0..=4 => Layer::Peer,
           5..=6 => Layer::None,
-          7 => Layer::ImpSame,
+          7 => {
+            if rng.chance(1, 2) {
+              Layer::ImpSame
+            } else {
+              Layer::OtherPeer
+            }
+          }
           8 => Layer::ImpOther,
           _ => {
             if allow_other_keys {
@@ -686,6 +707,7 @@ impl<'a> Gen<'a> {
   }
 
   fn wrong_sequence(&mut self) {
+    self.cur_src = self.rng.below(2) as usize;
     let Some(d) = self.donor() else { return };
     let slot = d.unit.slot;
     let (p, b, z) = (d.pieces[0].clone(), d.pieces[1].clone(), d.pieces[2].clone());
@@ -733,6 +755,7 @@ impl<'a> Gen<'a> {
     if self.conf.rtps == K::None {
       return;
     }
+    self.cur_src = self.rng.below(2) as usize;
     let n = 1 + self.rng.below(2);
     let mut pend = vec![];
     for _ in 0..n {
@@ -751,7 +774,7 @@ impl<'a> Gen<'a> {
         plain.extend_from_slice(piece);
       }
     }
-    let wrapped = match self.bench.protect_message(Who::Peer, &plain) {
+    let wrapped = match self.bench.protect_message(Layer::Peer.who(self.cur_src), &plain) {
       Ok(Some(w)) => w,
       Ok(None) => return self.errors.push("protect_message left the message unwrapped although rtps protection is configured".into()),
       Err(e) => return self.errors.push(format!("protect_message: {e}")),
@@ -844,6 +867,7 @@ impl<'a> Gen<'a> {
 
   /// units behind an INFO_DST naming somebody else, or an INFO_SRC naming an unknown source
   fn wrong_context(&mut self) {
+    self.cur_src = self.rng.below(2) as usize;
     let slots = [EP_PROT, EP_OPEN, EP_SPDP, EP_STATELESS, EP_VOLATILE];
     let r = self.random_recipe(&slots);
     let p = self.make(&r);
@@ -865,6 +889,12 @@ impl<'a> Gen<'a> {
   /// deterministic backbone: every endpoint x observable kind x receiver id form, once in
   /// plaintext and once exactly as the configuration requires, each in its own clean datagram
   fn sweep(&mut self) {
+    for src in 0..2 {
+      self.cur_src = src;
+      self.sweep_one();
+    }
+  }
+  fn sweep_one(&mut self) {
     for slot in 0..EP_COUNT {
       let mut kinds = vec![UKind::Data, UKind::DataFrag, UKind::AckNack, UKind::NackFrag];
       if Self::gap_ok(slot) {
@@ -894,6 +924,7 @@ impl<'a> Gen<'a> {
   /// clean datagrams with 1..4 random units; protected as a whole (by the peer or an imposter)
   /// when all of its units are subject to rtps protection
   fn random_clean(&mut self) {
+    self.cur_src = self.rng.below(2) as usize;
     let wrapable = self.conf.rtps != K::None && self.rng.chance(3, 5);
     let slots: Vec<usize> = if wrapable { vec![EP_PROT, EP_OPEN] } else { vec![EP_PROT, EP_OPEN, EP_SPDP, EP_STATELESS, EP_VOLATILE] };
     let n = 1 + self.rng.below(4);
@@ -906,7 +937,8 @@ impl<'a> Gen<'a> {
     let wrap = if wrapable && !has_key_exchange_triple {
       match self.rng.below(10) {
         0..=5 => Layer::Peer,
-        6..=7 => Layer::ImpSame,
+        6 => Layer::ImpSame,
+        7 => Layer::OtherPeer,
         _ => Layer::ImpOther,
       }
     } else {
@@ -918,8 +950,9 @@ impl<'a> Gen<'a> {
 
   /// after everything else: one correctly protected DATA per GAP, with the GAP's sequence number
   fn probes(&mut self) {
-    let gaps: Vec<(usize, usize, i64)> = self.units.iter().enumerate().filter(|(_, u)| u.kind == UKind::Gap).map(|(i, u)| (i, u.slot, u.sn)).collect();
-    for (gi, slot, sn) in gaps {
+    let gaps: Vec<(usize, usize, usize, i64)> = self.units.iter().enumerate().filter(|(_, u)| u.kind == UKind::Gap).map(|(i, u)| (i, u.src, u.slot, u.sn)).collect();
+    for (gi, src, slot, sn) in gaps {
+      self.cur_src = src;
       let mut r = self.correct(UKind::Data, slot, false);
       r.fixed_sn = Some(sn);
       let mut p = self.make(&r);
@@ -947,7 +980,7 @@ fn run_case(seed: u64, index: u64, acc: &mut Acc) -> Option<Outcome> {
   let mut rng = Rng::derive(seed, STREAM, index);
   let conf = gen_conf(&mut rng, index);
   let case = json!({"seed": seed, "stream": STREAM, "index": index});
-  let cfg = MrCfg { governance_xml: conf.governance_xml.clone(), permissions_xml: PERMISSIONS_XML.to_string(), subject_name: SUBJECT.to_string(), domain_id: 0, fab_seed: rng.next() };
+  let cfg = MrCfg { governance_xml: conf.governance_xml.clone(), permissions_xml: PERMISSIONS_XML.to_string(), subject_name: SUBJECT.to_string(), domain_id: 0, fab_seed: rng.next(), prot_reader_first: conf.prot_reader_first };
   let mut bench = match MrBench::new(&cfg) {
     Ok(b) => b,
     Err(e) => {
@@ -960,7 +993,7 @@ fn run_case(seed: u64, index: u64, acc: &mut Acc) -> Option<Outcome> {
   let ids = bench.ids();
   let answers = bench.answers();
   let (units, dgrams, errors) = {
-    let mut g = Gen { bench: &bench, ids: ids.clone(), conf: &conf, rng, next_id: 0, sn: [0; EP_COUNT], units: vec![], dgrams: vec![], errors: vec![] };
+    let mut g = Gen { bench: &bench, ids: ids.clone(), conf: &conf, rng, next_id: 0, cur_src: 0, sn: [[0; EP_COUNT]; 2], units: vec![], dgrams: vec![], errors: vec![] };
     g.sweep();
     let extra = 10 + g.rng.below(8);
     for _ in 0..extra {
@@ -1003,8 +1036,8 @@ fn run_case(seed: u64, index: u64, acc: &mut Acc) -> Option<Outcome> {
   // ---- lookup tables
   let mut by_sample: BTreeMap<u32, usize> = BTreeMap::new();
   let mut by_count: BTreeMap<u32, usize> = BTreeMap::new();
-  // (slot of the sending writer, sequence number) -> DATA / DATAFRAG unit
-  let mut by_sn: BTreeMap<(usize, i64), Vec<usize>> = BTreeMap::new();
+  // (claimed peer, slot of the sending writer, sequence number) -> DATA / DATAFRAG unit
+  let mut by_sn: BTreeMap<(usize, usize, i64), Vec<usize>> = BTreeMap::new();
   for (i, u) in units.iter().enumerate() {
     if u.id == 0 {
       continue;
@@ -1013,14 +1046,16 @@ fn run_case(seed: u64, index: u64, acc: &mut Acc) -> Option<Outcome> {
       by_count.insert(u.id, i);
     } else {
       by_sample.insert(u.id, i);
-      by_sn.entry((u.slot, u.sn)).or_default().push(i);
+      by_sn.entry((u.src, u.slot, u.sn)).or_default().push(i);
     }
   }
   let tag = conf.tag();
   let witness = |u: &Unit| -> Value {
     json!({"case": case, "configuration": {"rtps_protection_kind": conf.rtps.xml(conf.rtps_oa), "metadata_protection_kind(vt_prot)": conf.meta.xml(conf.meta_oa), "data_protection_kind(vt_prot)": conf.data.xml(false)},
       "unit": u.json(), "datagram_hex": hex(&dgrams[u.dgram]), "arrival_position": order.iter().position(|x| *x == u.dgram),
-      "local_prefix": hex(&ids.local_prefix), "peer_prefix": hex(&ids.peer_prefix), "governance_xml": conf.governance_xml})
+      "local_prefix": hex(&ids.local_prefix), "peer1_prefix": hex(&ids.peer_prefix[0]), "peer2_prefix": hex(&ids.peer_prefix[1]),
+      "receiver_reader_entity_ids": {"prot": hex(&ids.local_readers[EP_PROT]), "open": hex(&ids.local_readers[EP_OPEN])},
+      "claimed_writer_or_reader_entity_id": hex(if u.kind.to_writer() { &ids.remote_readers[u.src][u.slot] } else { &ids.remote_writers[u.src][u.slot] }), "governance_xml": conf.governance_xml})
   };
   let mut delivered_units: BTreeSet<usize> = BTreeSet::new();
   let mut out = Outcome { delivered: 0, withheld: 0, sig: 0 };
@@ -1062,7 +1097,17 @@ fn run_case(seed: u64, index: u64, acc: &mut Acc) -> Option<Outcome> {
       }
       if u.unknown_receiver {
         acc.count("delivered_with_entityid_unknown", 1);
+        if !to_writer && (u.slot == EP_PROT || u.slot == EP_OPEN) {
+          // the writer's entity id is shared by a writer of the other peer on the other topic, so
+          // the fan-out for ENTITYID_UNKNOWN had both user readers as candidates
+          let order = if conf.prot_reader_first { "prot-reader-first" } else { "open-reader-first" };
+          acc.count(&format!("delivered_unknown_receiver_two_candidates_{order}"), 1);
+          if u.slot == EP_OPEN && conf.meta != K::None && u.sub == Layer::None {
+            acc.count(&format!("delivered_plaintext_to_open-reader_next_to_protected_candidate_{order}"), 1);
+          }
+        }
       }
+      acc.count(&format!("delivered_from_peer{}", u.src + 1), 1);
       acc.count(&format!("delivered_{}", u.kind.name()), 1);
       acc.count(&format!("delivered_to_{}", endpoint_name(actual_slot, to_writer)), 1);
     }
@@ -1090,12 +1135,13 @@ fn run_case(seed: u64, index: u64, acc: &mut Acc) -> Option<Outcome> {
       } else {
         None
       };
-      let writer_slot = ids.remote_writers.iter().position(|w| w[..] == c.writer[12..16]);
+      // the writer GUID the Reader recorded: which peer, which of its writers
+      let writer_slot = ids.peer_prefix.iter().position(|p| p[..] == c.writer[0..12]).and_then(|src| ids.remote_writers[src].iter().position(|w| w[..] == c.writer[12..16]).map(|slot| (src, slot)));
       let by_payload = id_in_payload.and_then(|id| by_sample.get(&id).copied());
       let candidates: Vec<usize> = match by_payload {
         Some(ui) => vec![ui],
         // payload is not a plain VSample (e.g. handed on undecoded): identify by writer and number
-        None => writer_slot.and_then(|ws| by_sn.get(&(ws, c.sn)).cloned()).unwrap_or_default(),
+        None => writer_slot.and_then(|(src, ws)| by_sn.get(&(src, ws, c.sn)).cloned()).unwrap_or_default(),
       };
       if by_payload.is_none() {
         acc.count("cache_entry_payload_not_a_plain_sample", 1);
@@ -1139,12 +1185,13 @@ fn run_case(seed: u64, index: u64, acc: &mut Acc) -> Option<Outcome> {
   if std::env::var("VERIF_C17_DEBUG").is_ok() {
     for (ui, u) in units.iter().enumerate() {
       eprintln!(
-        "{} dgram={} pos={:?} {} {} {} unk={} [{}] have={}{}{} must={} delivered={} len={}",
+        "{} dgram={} pos={:?} {} {} peer{} {} unk={} [{}] have={}{}{} must={} delivered={} len={}",
         tag,
         u.dgram,
         order.iter().position(|x| *x == u.dgram),
         u.layout,
         u.kind.name(),
+        u.src + 1,
         SLOT_NAME[u.slot],
         u.unknown_receiver,
         u.sent_as(),
@@ -1160,7 +1207,7 @@ fn run_case(seed: u64, index: u64, acc: &mut Acc) -> Option<Outcome> {
   // ---- what did not arrive
   for (ui, u) in units.iter().enumerate() {
     sigbuf.extend_from_slice(u.layout.as_bytes());
-    sigbuf.extend_from_slice(&[u.kind as u8, u.slot as u8, u.unknown_receiver as u8, u.have_rtps as u8, u.have_sub as u8, u.have_pay as u8]);
+    sigbuf.extend_from_slice(&[u.kind as u8, u.src as u8, u.slot as u8, u.unknown_receiver as u8, u.have_rtps as u8, u.have_sub as u8, u.have_pay as u8]);
     sigbuf.extend_from_slice(u.sent_as().as_bytes());
     if !u.kind.observable() || u.probe_of.is_some() {
       continue;
@@ -1211,7 +1258,14 @@ fn run_case(seed: u64, index: u64, acc: &mut Acc) -> Option<Outcome> {
         u.kind.name(),
         endpoint_name(u.slot, to_writer),
         if protected { format!("correctly-protected[{}]", u.sent_as()) } else { "plaintext-nothing-required".to_string() },
-        if u.unknown_receiver { "unknown" } else { "explicit" }
+        if !u.unknown_receiver {
+          "explicit".to_string()
+        } else if !to_writer && (u.slot == EP_PROT || u.slot == EP_OPEN) {
+          // both user readers know a writer with this entity id: the order of the candidates matters
+          format!("unknown:candidates={}", if conf.prot_reader_first { "prot-reader,open-reader" } else { "open-reader,prot-reader" })
+        } else {
+          "unknown".to_string()
+        }
       );
       acc.violate(signature, json!({"required": {"rtps": q.rtps, "submessage": q.sub, "payload": q.pay}, "unit": u.json()}), witness(u));
     } else if !sufficient {
@@ -1220,6 +1274,7 @@ fn run_case(seed: u64, index: u64, acc: &mut Acc) -> Option<Outcome> {
       acc.count(&format!("cfg_{tag}_withheld"), 1);
       acc.count(&format!("withheld_{}", u.kind.name()), 1);
       acc.count(&format!("withheld_from_{}", endpoint_name(u.slot, to_writer)), 1);
+      acc.count(&format!("withheld_from_peer{}", u.src + 1), 1);
       acc.count(&format!("withheld_layout_{}", u.layout), 1);
       if u.unknown_receiver {
         acc.count("withheld_with_entityid_unknown", 1);
@@ -1230,6 +1285,8 @@ fn run_case(seed: u64, index: u64, acc: &mut Acc) -> Option<Outcome> {
         "withheld_class_wrong-keys".to_string()
       } else if [u.wrap, u.sub, u.pay].iter().any(|l| matches!(l, Layer::ImpOther)) {
         "withheld_class_unregistered-sender".to_string()
+      } else if [u.wrap, u.sub, u.pay].iter().any(|l| matches!(l, Layer::OtherPeer)) {
+        "withheld_class_keys-of-another-participant".to_string()
       } else if matches!(u.sub, Layer::PeerOtherKeys(_)) {
         "withheld_class_keys-of-another-endpoint".to_string()
       } else {
@@ -1259,7 +1316,7 @@ pub fn run_c17(args: &Args) -> i32 {
   net::set_policy_drop_all();
   let mut rep = Report::new(
     args,
-    "each case = one governance document (case index mod 27 enumerates rtps x metadata x data protection kind in {NONE,SIGN,ENCRYPT}; origin authentication, decoy rules, expression spelling random) from which real plugins for the receiver, a genuine peer and two imposters are configured, and 70-120 datagrams built by the independent wire builder: a sweep (every endpoint {protected, unprotected, SPDP, stateless, key-exchange} x {DATA, DATAFRAG, GAP, ACKNACK, NACKFRAG} x {explicit receiver id, ENTITYID_UNKNOWN}, once as plaintext and once protected exactly as required) plus random clean datagrams (1-4 units, each required level independently present / absent / made by an imposter with wrong keys / by an unregistered participant / with the keys of another endpoint, HEARTBEAT and HEARTBEATFRAG and INFO_TS/DST/SRC/REPLY mixed in) plus wrong secure sequences (SEC_BODY alone, SEC_POSTFIX alone, prefix + two submessages, prefix without postfix then plaintext, reordered and nested triples, plaintext transplanted between a genuine prefix and postfix, prefix carried over to the next datagram, SRTPS_PREFIX not first / without postfix / trailing or inserted plaintext / inside a SEC_PREFIX, INFO_DST for another participant), injected in random order; GAPs are observed through a correctly protected probe DATA with the GAP's sequence number sent last; distinct/non-trivial = hash of (configuration, every unit's layout, kind, endpoint, receiver-id form and protection) of a case in which at least one id was delivered and at least one was withheld",
+    "each case = one governance document (case index mod 27 enumerates rtps x metadata x data protection kind in {NONE,SIGN,ENCRYPT}; origin authentication, decoy rules, expression spelling random) from which real plugins for the receiver, two genuine peers and two imposters are configured (peer2's user writers/readers carry the entity ids of peer1's endpoints on the other topic, so both of the receiver's user readers know a writer with each entity id; (case index / 27) mod 2 chooses which of the two user readers has the smaller entity id), and 130-200 datagrams built by the independent wire builder: a sweep per genuine peer (every endpoint {protected, unprotected, SPDP, stateless, key-exchange} x {DATA, DATAFRAG, GAP, ACKNACK, NACKFRAG} x {explicit receiver id, ENTITYID_UNKNOWN}, once as plaintext and once protected exactly as required) plus random clean datagrams (1-4 units, each required level independently present / absent / made by an imposter with wrong keys / by an unregistered participant / with the keys of another endpoint / by the other genuine peer, HEARTBEAT and HEARTBEATFRAG and INFO_TS/DST/SRC/REPLY mixed in) plus wrong secure sequences (SEC_BODY alone, SEC_POSTFIX alone, prefix + two submessages, prefix without postfix then plaintext, reordered and nested triples, plaintext transplanted between a genuine prefix and postfix, prefix carried over to the next datagram, SRTPS_PREFIX not first / without postfix / trailing or inserted plaintext / inside a SEC_PREFIX, INFO_DST for another participant), injected in random order; GAPs are observed through a correctly protected probe DATA with the GAP's sequence number sent last; distinct/non-trivial = hash of (configuration, every unit's layout, kind, endpoint, receiver-id form and protection) of a case in which at least one id was delivered and at least one was withheld",
   );
   rep.assume("observation points: the TopicCache of each of the five readers (every change the Reader stored; attributed by the id in the payload, or by writer and sequence number when the payload is not a plain sample), then DataReader::take on each (best-effort, KeepAll), and the acknack channel; HEARTBEAT / HEARTBEATFRAG / INFO_* are injected but not observed (a best-effort reader ignores heartbeats); a GAP is observed only through its effect on a later DATA");
   rep.assume("access control state is built from an unsigned governance document through the C18 hook (signature checking is C18's subject); authentication is a stand-in that supplies identity handles and a shared secret; cryptography and access control attribute answers are the real builtin plugins reached through SecurityPlugins");
@@ -1310,6 +1367,15 @@ pub fn run_c17(args: &Args) -> i32 {
     "withheld_class_wrong-keys",
     "withheld_class_unregistered-sender",
     "withheld_class_keys-of-another-endpoint",
+    "withheld_class_keys-of-another-participant",
+    "delivered_from_peer1",
+    "delivered_from_peer2",
+    "withheld_from_peer1",
+    "withheld_from_peer2",
+    "delivered_unknown_receiver_two_candidates_prot-reader-first",
+    "delivered_unknown_receiver_two_candidates_open-reader-first",
+    "delivered_plaintext_to_open-reader_next_to_protected_candidate_prot-reader-first",
+    "delivered_plaintext_to_open-reader_next_to_protected_candidate_open-reader-first",
     "withheld_class_partially-protected-or-malformed",
     "delivered_to_spdp-reader",
     "delivered_to_stateless-reader",
